@@ -189,6 +189,9 @@ type Runner[S any] struct {
 	failed   bool
 	last     *violationRec
 	smallest []byte
+	lastJS   []byte
+	lastH    string
+	lastV    Verdict
 	// printedKnown avoids repeating KNOWN-FINDING lines.
 	printedKnown map[string]bool
 }
@@ -347,6 +350,8 @@ func Run[S any](t *testing.T, id, name string, checks int, gen func(*rapid.T) S,
 
 	defer func() {
 		if r.last != nil {
+			// only the last failing scenario (rapid's minimal one) becomes a replay file
+			r.last.Replay = r.writeReplay(r.lastJS, r.lastH, r.lastV)
 			r.st.Violations = append(r.st.Violations, *r.last)
 			outMu.Lock()
 			fmt.Printf("VIOLATION property=%s replay=%s\n", id, r.last.Replay)
@@ -358,8 +363,8 @@ func Run[S any](t *testing.T, id, name string, checks int, gen func(*rapid.T) S,
 		msg, v, js, h := r.judge(sc, !r.failed)
 		if msg != "" {
 			r.failed = true
-			p := r.writeReplay(js, h, v)
-			r.last = &violationRec{Check: name, Message: msg, Signature: v.Signature, Replay: p}
+			r.lastJS, r.lastH, r.lastV = js, h, v
+			r.last = &violationRec{Check: name, Message: msg, Signature: v.Signature}
 			rt.Fatalf("%s/%s: %s", id, name, msg)
 		}
 	})
@@ -403,6 +408,13 @@ func Enumerate[S any](t *testing.T, id, name string, scenarios []S, exhaustive b
 		return
 	}
 	sh, n := Shards()
+	req := 0
+	for i := range scenarios {
+		if i%n == sh {
+			req++
+		}
+	}
+	r.st.Requested = req
 	for i, sc := range scenarios {
 		if i%n != sh {
 			continue
@@ -416,4 +428,27 @@ func Enumerate[S any](t *testing.T, id, name string, scenarios []S, exhaustive b
 			return
 		}
 	}
+}
+
+// KnownOpen reports whether a signature is listed as an open known finding of a property, so that
+// a check can keep exploring a scenario behind a known violation instead of stopping at it.
+func KnownOpen(id, sig string) bool {
+	_, ok := loadKnownCached(id)[sig]
+	return ok
+}
+
+var (
+	knownCacheMu sync.Mutex
+	knownCache   = map[string]map[string]knownFinding{}
+)
+
+func loadKnownCached(id string) map[string]knownFinding {
+	knownCacheMu.Lock()
+	defer knownCacheMu.Unlock()
+	if m, ok := knownCache[id]; ok {
+		return m
+	}
+	m := loadKnown(id)
+	knownCache[id] = m
+	return m
 }
